@@ -44,6 +44,23 @@ Exemptions (counted as ``trivial:<reason>``, never reported) - inherent ambiguit
   * a raw ';' in the last path segment on the ASGI test client (it cuts ";params" off: third-party environment);
   * non-ASCII header bytes on the ASGI test client (it encodes UTF-8 where HTTP says latin-1: third-party environment).
   * cases whose ``call()`` raises before anything is sent (nothing on the wire to judge) - counted as ``not_sent``.
+
+Review round 2 (enumerators in mc/c06_extra.py; same oracle, documents with more than one thing in them):
+  * several parameters per location: two and three query / header / cookie / path / formData parameters in both writing
+    orders, array + scalar, object + scalar, names differing in letter case only (query, cookie), names with brackets and
+    dots, only-optional parameters, one name in all locations; path templates ``/{a}-{b}`` (two variables in one segment:
+    judged while no value contains the literal between them) and ``/{a}/x/{a}`` (every occurrence carries the same text);
+    an empty path value among several variables falls under the empty-path-value exemption (URL joining drops the segment);
+  * declaration spellings of one array/object parameter: OpenAPI 3.1 document, path-item level, ``$ref`` parameter, ``$ref``
+    schema, ``nullable: true``, 3.1 ``type: [T, "null"]``, ``allOf: [T]`` (the last two: KF-C06-R2/R3);
+  * request-body media types: parameters (``; charset=utf-8``), letter case, ``+json``, ``text/json``; two and three declared
+    media types in every writing order; wildcards; optional bodies (``required: false`` / not written; Swagger 2.0 too): the
+    Content-Type and the body format follow ``case.media_type`` whichever was drawn, a case without body has neither;
+  * base URLs with a port, with percent-escapes in the base path (KF-C06-R1), given per call (``call(base_url=...)`` wins over
+    the configured one, ``servers`` and ``basePath``), OpenAPI 3.1 ``servers``;
+  * the same case used twice: after ``as_transport_kwargs()`` and ``as_curl_command()`` the case is sent a second time and
+    the second request has to equal the first (multipart: modulo the random boundary) - kind ``second_send_differs``;
+  * coverage phase: a name the coverage case itself added (its "unknown parameter" scenario) is part of the generated case.
 """
 
 from __future__ import annotations
@@ -56,6 +73,7 @@ from dataclasses import dataclass, field, replace
 from typing import Any, Iterator
 from urllib.parse import urlsplit
 
+from mc import c06_extra as X
 from mc import httpseam
 from mc.choicetree import Alphabet, Stats, draw_strategy, explore
 from mc.runner import Result
@@ -71,24 +89,36 @@ RULE = (
     "once per rotation of the reserved-character alphabet (each character is the default once), every resulting Case is sent "
     "through the real transport and the logged request is decoded by an independent style decoder; coverage-phase cases and "
     "explicit examples of the same documents are sent too. distinct = distinct (document, base, phase, transport, logged "
-    "request); non-trivial = at least one generated parameter/body was decoded and compared (ambiguous encodings are trivial)"
+    "request); non-trivial = at least one generated parameter/body was decoded and compared (ambiguous encodings are trivial). "
+    "round 2: documents with 2-3 parameters per location in both writing orders / one name in all locations / two variables in "
+    "one path segment / a variable used twice, declaration spellings (3.1, $ref, path level, nullable, type list, allOf), 1-3 "
+    "declared body media types (parameters, letter case, wildcards, optional body), base URLs with port / escapes / per call; "
+    "every case of these is sent twice and the two requests are compared"
 )
 CHARS = ["a", "0", " ", "%", "+", "&", "=", "/", "?", "#", ".", ",", ";", "é"]
 BOUNDS = {
     "quick": {"d": 1, "string_size": 2, "array_size": 2, "rotations": len(CHARS), "transports": ["requests"],
-              "app_transport_docs": "base-URL documents only", "max_exec_per_tree": 400},
+              "app_transport_docs": "base-URL documents; round-2 documents (first writing order, first rotation; several-parameter documents: WSGI only)",
+              "max_exec_per_tree": 400,
+              "round2": {"parameters_per_location": 3, "writing_orders": 2, "rotations": "'a' and ','", "declared_media_types": 3,
+                         "body_rotations": "'a', e-acute, '%'", "second_send": "first rotation, fuzzing and examples phases, requests transport",
+                         "coverage_phase": "first writing order"}},
     "thorough": {"d": 2, "string_size": 2, "array_size": 2, "rotations": len(CHARS), "transports": ["requests", "wsgi", "asgi"],
-                 "app_transport_docs": "all", "max_exec_per_tree": 6000},
+                 "app_transport_docs": "all", "max_exec_per_tree": 6000,
+                 "round2": {"parameters_per_location": 3, "writing_orders": 3, "rotations": "all", "declared_media_types": 3,
+                            "body_rotations": "all", "second_send": "first rotation, all phases", "coverage_phase": "all"}},
 }
 BUDGET_S = {"quick": 140, "thorough": 3000}
 CHUNK = 2
 ASSUMPTIONS = [
     "values outside the alphabet `a 0 space % + & = / ? # . , ; e-acute` (sizes <= 2) and beyond d deviations are not explored",
-    "one parameter per document: interactions between several styled parameters of one location are not explored",
+    "interactions between parameters: the two- and three-parameter documents of mc/c06_extra.py (one array/object + scalars per location, one name in all locations); larger combinations are not explored",
+    "media type parameters other than `charset=utf-8` (another charset, a boundary written into the schema) are not explored",
+    "base URLs with a query string, userinfo, upper-case host or non-ASCII characters are not explored",
     "style documents take their base URL round-robin from the five base URLs; the full base-URL x servers/basePath product is enumerated on four small documents only",
     "the wire is observed at PreparedRequest level (in-process adapter), at the WSGI environ and at the ASGI scope; urllib3/http.client below that are environment",
     "decoders: oracles/styles.py (own code from OAS 3.0.3 / RFC 6570 / Swagger 2.0 tables); a wire form is accepted when the strict (split-then-decode) or the lenient (decode-then-split) reading recovers the value",
-    "parameter *names* are plain ASCII (`p`, `X-P`, `a`, `b`); reserved characters in names are not explored",
+    "parameter *names* are plain ASCII (`p`, `P`, `X-P`, `x-a`, `a`, `b`, `ids[]`, `a.b`); other reserved characters in names are not explored",
 ]
 TECHNIQUE = (
     "exhaustive small-scope enumeration of parameter/body/base-URL documents x exhaustive deviation-bounded choice-tree "
@@ -101,7 +131,7 @@ LEVEL_TEXT = (
 )
 LEVEL_NOTE = (
     "Trusted: oracles/styles.py, the PrimitiveProvider seam, the requests adapter seam, werkzeug/starlette test clients. Not "
-    "covered: longer strings, >1 styled parameter per location, reserved characters in parameter names, real sockets."
+    "covered: longer strings, more than three parameters per location, other reserved characters in parameter names, real sockets."
 )
 
 HOST = "http://verif.local"
@@ -243,8 +273,58 @@ def items(tier: str, seed: int) -> list[dict]:
                 continue  # no such path segment
             out.append({"kind": "examples", "spec": spec, "base": BASE_URLS[(n + n_ex) % len(BASE_URLS)], "transports": transports,
                         "rotations": [0], "ex_path": ex_path, "ex_query": [EXAMPLE_STRINGS[n_ex], "0"],
-                        "ex_cookie": ex_path})
-    out.append({"kind": "mixed", "spec": "3.0", "base": BASE_URLS[4], "transports": transports, "rotations": [0]})
+                        "ex_cookie": ex_path, "repeat": True})
+    out.append({"kind": "mixed", "spec": "3.0", "base": BASE_URLS[4], "transports": transports, "rotations": [0], "repeat": True})
+    out += _round2_items(tier, n)
+    return out
+
+
+# rotations of the alphabet used by the several-parameter documents in the quick tier: 'a' and ',' (the delimiter of most
+# styles) are the default character once; every character alone is the subject of the one-parameter documents
+ROT_FEW = [CHARS.index(ch) for ch in ("a", ",")]
+
+
+def _round2_items(tier: str, n: int) -> list[dict]:
+    """Review round 2 (mc/c06_extra.py): several parameters per location, declaration spellings, body media types, base URLs.
+
+    Every document is sent through the requests transport on ROT_FEW (thorough: all rotations) and, as a second work item,
+    through the WSGI and ASGI transports on the first rotation; every case of these items is sent twice (``repeat``).
+    """
+    out: list[dict] = []
+    every = list(range(len(CHARS)))
+    few = ROT_FEW if tier == "quick" else every
+
+    def emit(row: dict, rotations: list[int], app_transports: bool = True, coverage: bool = True, asgi: bool = True) -> None:
+        nonlocal n
+        base = BASE_URLS[n % len(BASE_URLS)]
+        n += 1
+        out.append({**row, "base": base, "transports": ["requests"], "rotations": rotations, "repeat": True, "coverage": coverage})
+        if app_transports:
+            out.append({**row, "base": base, "transports": ["wsgi", "asgi"] if asgi else ["wsgi"], "rotations": [0],
+                        "repeat": tier != "quick", "coverage": False})
+
+    quick = tier == "quick"
+    for row in X.multi_param_rows():
+        if quick and row["tag"].endswith(":rot"):
+            continue  # the third writing order of three parameters: thorough tier
+        first_order = not row["tag"].endswith((":rev", ":rot"))
+        has_str = any(pd["type"] in HAS_STRINGS for pd in row["params"])
+        # quick: the ASGI transport shares serialize_case with the requests transport (its own part, the base URL, is the
+        # subject of the base-URL documents); WSGI has its own serialize_case, cookie and query handling
+        emit(row, few if has_str else [0], app_transports=first_order or not quick, coverage=first_order or not quick, asgi=not quick)
+    for row in X.spelling_rows():
+        emit(row, [0] if quick else [0, CHARS.index(",")], app_transports=not quick, coverage=not quick)
+    seen_content: set = set()
+    for row in X.body_media_rows():
+        first_order = tuple(sorted(mt for mt, _ in row["content"])) not in seen_content
+        seen_content.add(tuple(sorted(mt for mt, _ in row["content"])))
+        emit(row, [0, CHARS.index("é"), CHARS.index("%")] if quick else every, coverage=first_order or not quick)
+    for row in X.base_extra_rows():
+        # the per-call base URL of the WSGI transport is werkzeug's own `base_url` argument, and werkzeug reads the path it is
+        # given as an IRI (it decodes percent-escapes itself): third-party environment, those rows go without WSGI
+        no_wsgi = row["mode"] == "per_call" or "%" in (row["base"] or "")
+        out.append({**row, "transports": ["requests", "asgi"] if no_wsgi else ["requests", "wsgi", "asgi"], "rotations": [0],
+                    "repeat": True})
     return out
 
 
@@ -263,9 +343,12 @@ class Param:
     json_content: bool = False
     properties: list = field(default_factory=list)
     tname: str = ""
+    spelling: str | None = None  # round 2: how the declaration is written (3.1 document, $ref, allOf ...)
 
     def facts(self) -> dict:
         out = {"location": self.location, "declared": self.kind, "type": self.tname}
+        if self.spelling:
+            out["spelling"] = self.spelling
         if self.spec == "2.0":
             out["collectionFormat"] = self.cf
         elif self.json_content:
@@ -290,6 +373,7 @@ class Expect:
     configured_params: dict = field(default_factory=dict)
     configured_cookies: dict = field(default_factory=dict)
     facts: dict = field(default_factory=dict)
+    call_kwargs: dict = field(default_factory=dict)  # round 2: arguments of this one call (``base_url=``)
 
 
 def _doc(spec: str, template: str, method: str, parameters: list[dict], *, body: tuple[str, dict] | None = None,
@@ -310,7 +394,8 @@ def _doc(spec: str, template: str, method: str, parameters: list[dict], *, body:
         if body is not None:
             mt, schema = body
             op["requestBody"] = {"required": True, "content": {mt: {"schema": schema}}}
-        doc = {"openapi": "3.0.2", "info": {"title": "t", "version": "1"}, "paths": {template: {method: op}}}
+        doc = {"openapi": "3.1.0" if spec == "3.1" else "3.0.2", "info": {"title": "t", "version": "1"},
+               "paths": {template: {method: op}}}
     if extra:
         doc.update(extra)
     return doc
@@ -388,17 +473,23 @@ def build(item: dict) -> tuple[dict, Expect, dict]:
             d, p = _param_def(spec, loc, "string")
             params, ps = [d], [p]
         extra: dict[str, Any] = {}
-        if spec == "3.0" and isinstance(item["servers"], dict):
+        if spec != "2.0" and isinstance(item["servers"], dict):
             # the first server applies; a second one is listed and must not be used
             extra["servers"] = [copy.deepcopy(item["servers"]), {"url": "/unused"}]
-        elif spec == "3.0" and item["servers"] is not None:
+        elif spec != "2.0" and item["servers"] is not None:
             extra["servers"] = [{"url": item["servers"]}]
         if spec == "2.0" and item["servers"] is not None:
             extra["basePath"] = item["servers"]
         doc = _doc(spec, template, "get", params, extra=extra)
+        call_kwargs: dict[str, Any] = {}
         if item["mode"] == "configured":
             prefix, base_path = _split_base(item["base"])
             cfg: dict[str, Any] = {"base_url": item["base"]}
+        elif item["mode"] == "per_call":
+            # round 2: the base URL of this one call; a configured one (and `servers` / `basePath`) must not be used
+            prefix, base_path = _split_base(item["base"])
+            cfg = {"base_url": item["configured"]} if item.get("configured") else {"location": HOST + "/openapi.json"}
+            call_kwargs = {"base_url": item["base"]}
         else:
             declared = item["servers"] or "/"
             if isinstance(declared, dict):
@@ -406,12 +497,118 @@ def build(item: dict) -> tuple[dict, Expect, dict]:
             prefix, base_path = _split_base(declared if declared.startswith("http") else HOST + declared)
             cfg = {"location": HOST + "/openapi.json"}
         facts = {"location": loc, "base_mode": item["mode"], "template": template}
+        if item.get("base") and re.search(r"%(?!20)[0-9A-Fa-f]{2}", item["base"]):
+            facts["base_has_escaped_reserved_character"] = True
         return doc, Expect(spec, template, "get", ps, None, prefix, base_path, facts=facts,
                            configured_headers={"Authorization": "Bearer verif", "X-Cfg": "1"},
-                           configured_params={"cfg": "1"}, configured_cookies={"ck": "1"}), cfg
+                           configured_params={"cfg": "1"}, configured_cookies={"ck": "1"}, call_kwargs=call_kwargs), cfg
     if kind in ("examples", "mixed"):
         return _multi_doc(item)
+    if kind == "multi":
+        return _several_doc(item)
+    if kind == "body2":
+        return _body2_doc(item)
     raise ValueError(kind)
+
+
+# ------------------------------------------------------------------------------------------------ round-2 documents
+
+BODY2_SCHEMAS: dict[str, dict] = {
+    "object": TYPES["object0"],
+    "string": {"type": "string", "maxLength": 2},
+    "array_string": TYPES["array_string0"],
+    "form_object": {"type": "object", "properties": {"a": {"type": "string", "maxLength": 2}, "b": {"type": "integer"}},
+                    "required": ["a"], "additionalProperties": False},
+}
+
+
+def _several_doc(item: dict) -> tuple[dict, Expect, dict]:
+    """Several parameters (mc/c06_extra.multi_param_rows / spelling_rows), written in the order of ``item['params']``."""
+    spec = item["spec"]
+    template, method = item["template"], item["method"]
+    version = "3.0.2"
+    op_level: list[dict] = []
+    path_level: list[dict] = []
+    components: dict[str, dict] = {"parameters": {}, "schemas": {}}
+    ps: list[Param] = []
+    form: list[dict] = []
+    for n, pd in enumerate(item["params"]):
+        spelling = pd.get("spelling")
+        d, p = _param_def(spec, pd["loc"], pd["type"], style=pd.get("style"), explode=pd.get("explode"), cf=pd.get("cf"),
+                          name=pd["name"], required=pd.get("required", True))
+        p.spelling = spelling
+        ps.append(p)
+        if spec != "2.0":
+            if spelling in ("v31", "type_list"):
+                version = "3.1.0"
+            if spelling == "nullable":
+                d["schema"]["nullable"] = True
+            elif spelling == "type_list":
+                d["schema"]["type"] = [d["schema"]["type"], "null"]
+            elif spelling == "allOf":
+                d["schema"] = {"allOf": [d["schema"]]}
+            elif spelling == "ref_schema":
+                components["schemas"][f"S{n}"] = d["schema"]
+                d["schema"] = {"$ref": f"#/components/schemas/S{n}"}
+        if spelling == "ref_param":
+            components["parameters"][f"P{n}"] = d
+            d = {"$ref": ("#/parameters/" if spec == "2.0" else "#/components/parameters/") + f"P{n}"}
+        if pd["loc"] == "formData":
+            form.append(d)
+        elif spelling == "path_level":
+            path_level.append(d)
+        else:
+            op_level.append(d)
+    doc = _doc(spec, template, method, op_level, form=form or None)
+    if form:
+        doc["paths"][template][method]["consumes"] = ["application/x-www-form-urlencoded"]
+    if path_level:
+        doc["paths"][template]["parameters"] = path_level
+    if spec == "2.0":
+        if components["parameters"]:
+            doc["parameters"] = components["parameters"]
+    else:
+        doc["openapi"] = version
+        used = {k: v for k, v in components.items() if v}
+        if used:
+            doc["components"] = used
+    prefix, base_path = _split_base(item["base"])
+    facts = {"location": "several", "shape": item["tag"].rsplit(":", 1)[0] if item["tag"].endswith((":fwd", ":rev", ":rot")) else item["tag"]}
+    return doc, Expect(spec, template, method, ps, None, prefix, base_path, facts=facts), {"base_url": item["base"]}
+
+
+def _body2_doc(item: dict) -> tuple[dict, Expect, dict]:
+    """Request bodies (mc/c06_extra.body_media_rows): media types in writing order, optional bodies."""
+    spec = item["spec"]
+    content = [(mt, copy.deepcopy(BODY2_SCHEMAS[tname])) for mt, tname in item["content"]]
+    required = item["required"]
+    op: dict[str, Any] = {"responses": {"200": {"description": "OK"}}}
+    if spec == "2.0":
+        op["consumes"] = [mt for mt, _ in content]
+        if all(mt.split(";")[0].strip().lower() in (X.FORM_MT, X.MULTIPART_MT) for mt, _ in content):
+            schema = content[0][1]
+            op["parameters"] = []
+            for name, sub in schema["properties"].items():
+                d = {"name": name, "in": "formData", **sub}
+                if required is not None:
+                    d["required"] = bool(required) and name in schema.get("required", [])
+                op["parameters"].append(d)
+        else:
+            d = {"name": "body", "in": "body", "schema": content[0][1]}
+            if required is not None:
+                d["required"] = required
+            op["parameters"] = [d]
+        doc: dict[str, Any] = {"swagger": "2.0", "info": {"title": "t", "version": "1"}, "paths": {"/t": {"post": op}}}
+    else:
+        body: dict[str, Any] = {"content": {mt: {"schema": schema} for mt, schema in content}}
+        if required is not None:
+            body["required"] = required
+        op["requestBody"] = body
+        doc = {"openapi": "3.0.2", "info": {"title": "t", "version": "1"}, "paths": {"/t": {"post": op}}}
+    prefix, base_path = _split_base(item["base"])
+    facts = {"location": "body", "type": "+".join(tname for _, tname in item["content"]), "body_doc": item["tag"].split(":")[0],
+             "body_required": required}
+    return doc, Expect(spec, "/t", "post", [], None, prefix, base_path, facts=facts), {"base_url": item["base"]}
 
 
 # explicit example values: one per reserved character, the dot segments, the empty string
@@ -566,8 +763,8 @@ def _wire_from_exchange(ex: httpseam.Exchange) -> Wire:
 
 
 def send(case: Any, transport: str, recorder: Any, headers: dict | None, params: dict | None = None,
-         cookies: dict | None = None) -> tuple[Wire | None, str | None]:
-    kwargs: dict[str, Any] = {}
+         cookies: dict | None = None, extra: dict | None = None) -> tuple[Wire | None, str | None]:
+    kwargs: dict[str, Any] = dict(extra or {})
     if headers:
         kwargs["headers"] = dict(headers)
     if params:
@@ -602,6 +799,32 @@ def _template_regex(template: str) -> tuple[re.Pattern, list[str]]:
         pos = m.end()
     pattern += re.escape(template[pos:])
     return re.compile("^" + pattern + "$"), names
+
+
+_EMPTY_REASONS = {"empty_path_segment", "shape_differs_from_declared_type", "empty_array_vs_empty_string_vs_absent",
+                  "empty_object_vs_empty_string_vs_absent", "array_of_empty_strings_vs_empty_string", "nested_value_in_flat_style"}
+
+
+def _some_path_value_is_empty(expect: Expect, path_values: dict) -> bool:
+    """Does a path value fall under an exemption that leaves its segment empty or undefined (see the module docstring)?"""
+    for p in expect.params:
+        if p.location != "path" or p.name not in path_values:
+            continue
+        value = path_values[p.name]
+        reason = S.ambiguity(value, "path", "collection" if p.spec == "2.0" else p.style, p.explode, p.kind,
+                             p.cf if p.spec == "2.0" else None, p.json_content)
+        if reason in _EMPTY_REASONS or (value is None and p.style in ("label", "matrix")):
+            return True
+    return False
+
+
+def _shared_segment_literal(template: str) -> str | None:
+    """The literal text between two variables of one path segment (`/{a}-{b}` -> '-'), None when no segment has two."""
+    for segment in template.split("/"):
+        m = re.search(r"\}([^{}]*)\{", segment)
+        if m:
+            return m.group(1)
+    return None
 
 
 def _leaf_py(expected: Any, got: Any) -> bool:
@@ -876,6 +1099,11 @@ def judge(res: Result, item: dict, expect: Expect, case: Any, captured: dict, wi
         m = regex.match(rest)
         if handled:
             pass
+        elif m is None and len(names) > 1 and _some_path_value_is_empty(expect, path_values):
+            # round 2: an empty value has no segment of its own ("/t//0" is "/t/0" after URL joining): the documented exemption
+            # for an empty path value, met in a template with further variables
+            res.count("trivial:empty_path_value_among_several_variables")
+            handled |= set(names)
         elif m is None:
             facts = dict(expect.facts)
             # which structural fact is broken?
@@ -885,6 +1113,21 @@ def judge(res: Result, item: dict, expect: Expect, case: Any, captured: dict, wi
             violation({"kind": "url_path_structure_differs", **facts}, {"expected_template": prefix + expect.template})
         else:
             raw_segments = dict(zip(names, m.groups()))
+            if len(set(names)) < len(names):
+                # round 2: a variable used twice stands for one value: every occurrence carries the same text
+                res.count("compared:path_variable_used_twice")
+                for name in sorted(set(names)):
+                    if len({g for k, g in zip(names, m.groups()) if k == name}) > 1:
+                        violation({"kind": "path_variable_occurrences_differ", **expect.facts}, {"expected_template": prefix + expect.template})
+                        handled.add(name)
+            literal = _shared_segment_literal(expect.template)
+            if literal is not None:
+                # round 2: `/{a}-{b}`: the split is unique only while no value contains the literal between the variables
+                if any(literal in str(x) for v in path_values.values() for x in common_leaves(v)):
+                    res.count("trivial:value_contains_template_literal")
+                    handled |= set(names)
+                else:
+                    res.count("compared:two_variables_in_one_segment")
     if wire.fragment and not handled:
         violation({"kind": "url_has_fragment", **expect.facts})
     for seg in wire.raw_path.split("/"):
@@ -897,6 +1140,7 @@ def judge(res: Result, item: dict, expect: Expect, case: Any, captured: dict, wi
     for p in expect.params:
         by_location.setdefault(p.location, []).append(p)
     extra_query_names: set[str] = set()
+    compared_by_location: dict[str, int] = {}
     for p in expect.params:
         if p.name in handled and p.location == "path":
             continue
@@ -925,6 +1169,9 @@ def judge(res: Result, item: dict, expect: Expect, case: Any, captured: dict, wi
         if reason is None and wire.transport == "asgi" and p.location == "header" and wire.header(p.name) is None and \
                 any(k.lower() == p.name.lower() for k, _ in wire.headers):
             reason = "non_ascii_header_on_asgi_client"
+        if reason is None and wire.transport == "asgi" and p.location == "cookie" and wire.header("Cookie") is None and \
+                any(k.lower() == "cookie" for k, _ in wire.headers):
+            reason = "non_ascii_header_on_asgi_client"  # round 2: another cookie of the same header holds the non-ASCII bytes
         if reason == "empty_array_vs_empty_string_vs_absent" and p.location == "query" and not p.json_content and (
                 p.cf == "multi" if p.spec == "2.0" else S.effective("query", p.style, p.explode) == ("form", True)):
             # one pair per item: no item, no pair.  `p=` is the one-item array [""], which the empty array is not
@@ -950,6 +1197,9 @@ def judge(res: Result, item: dict, expect: Expect, case: Any, captured: dict, wi
             continue
         compared += 1
         res.count(f"compared:{p.location}")
+        compared_by_location[p.location] = compared_by_location.get(p.location, 0) + 1
+        if compared_by_location[p.location] == 2:
+            res.count("round2:two_parameters_of_one_location_compared")
         if p.json_content:
             ok = any(S.json_equal(expected, r) for r in readings if r is not S.ABSENT)
         else:
@@ -969,6 +1219,14 @@ def judge(res: Result, item: dict, expect: Expect, case: Any, captured: dict, wi
     for p in by_location.get("query", []):
         allowed_q |= allowed_query_names(p)
     allowed_q |= extra_query_names | set(expect.configured_params)
+    generated_cookie_names: set[str] = set()
+    if phase == "coverage":
+        # round 2: a coverage case may hold a name nobody declared (the "unknown parameter" scenario): it is part of the
+        # generated case, hence not "something else"
+        if isinstance(captured.get("query"), dict):
+            allowed_q |= {str(k) for k in captured["query"]}
+        if isinstance(captured.get("cookie"), dict):
+            generated_cookie_names = {str(k) for k in captured["cookie"]}
     for k, v in expect.configured_params.items():
         if (k, v) not in [(S._safe(S.form_decode, a), S._safe(S.form_decode, b)) for a, b in S.split_query(wire.raw_query)]:
             res.count(f"configured_query_parameter_not_sent:{wire.transport}")  # C14's subject, not C06's: counted only
@@ -1003,7 +1261,7 @@ def judge(res: Result, item: dict, expect: Expect, case: Any, captured: dict, wi
         if (k, v) not in S.parse_cookie_header(cookie or ""):
             res.count(f"configured_cookie_not_sent:{wire.transport}")
     if cookie is not None and not exempt_cookie:
-        allowed_c = {p.name for p in by_location.get("cookie", [])} | set(expect.configured_cookies)
+        allowed_c = {p.name for p in by_location.get("cookie", [])} | set(expect.configured_cookies) | generated_cookie_names
         for k, _ in S.parse_cookie_header(cookie):
             if k not in allowed_c:
                 violation({"kind": "unexpected_cookie", **expect.facts}, {"name": k})
@@ -1013,6 +1271,8 @@ def judge(res: Result, item: dict, expect: Expect, case: Any, captured: dict, wi
     content_type = wire.header("Content-Type")
     form_params = by_location.get("formData", [])
     if case.body is NOT_SET:
+        if item["kind"] == "body2":
+            res.count("round2:case_without_body_of_optional_body")
         if wire.body:
             violation({"kind": "body_sent_without_case_body", **expect.facts})
         if content_type is not None:
@@ -1024,6 +1284,11 @@ def judge(res: Result, item: dict, expect: Expect, case: Any, captured: dict, wi
             res.count("trivial:body_without_media_type")
         else:
             main = mt.split(";")[0].strip().lower()
+            if item["kind"] == "body2":
+                if len(item["content"]) > 1 and mt == item["content"][1][0]:
+                    res.count("round2:second_declared_media_type_sent")
+                if ";" in mt:
+                    res.count("round2:media_type_with_parameter_sent")
             if main == "multipart/form-data":
                 if content_type is None or not re.match(r"^multipart/form-data; ?boundary=.+$", content_type):
                     violation({"kind": "content_type_differs", **facts}, {"content_type": content_type})
@@ -1035,7 +1300,7 @@ def judge(res: Result, item: dict, expect: Expect, case: Any, captured: dict, wi
                     violation({"kind": "content_type_differs", **facts}, {"content_type": content_type})
                 else:
                     res.count("compared:content_type")
-                if main == "application/json":
+                if main in ("application/json", "text/json") or main.endswith("+json"):
                     compared += 1
                     res.count("compared:body_json")
                     try:
@@ -1137,7 +1402,7 @@ def common_leaves(value: Any) -> list:
 
 def item_key(item: dict) -> list:
     return [item.get(k) for k in ("kind", "spec", "loc", "style", "explode", "cf", "type", "json", "media_type", "template", "mode",
-                                  "base", "servers")]
+                                  "base", "servers")] + ([item["tag"], item.get("configured")] if "tag" in item else [])
 
 
 # ----------------------------------------------------------------------------------------------------------------- driver
@@ -1177,8 +1442,12 @@ def check_item(item: dict, tier: str) -> Result:
 
         def run_case(case: Any, phase: str, info: dict) -> None:
             captured = copy.deepcopy(capture.values)
-            wire, error = send(case, transport, recorder, headers, expect.configured_params, expect.configured_cookies)
+            wire, error = send(case, transport, recorder, headers, expect.configured_params, expect.configured_cookies,
+                               expect.call_kwargs)
             res.evaluations += 1
+            if item.get("repeat") and info.get("rotation", 0) == item["rotations"][0] and (
+                    tier != "quick" or (phase != "coverage" and (transport == "requests" or item["kind"] != "base"))):
+                send_again(res, item, expect, case, wire, transport, recorder, headers, phase, info)
             if wire is None:
                 res.count("not_sent")
                 res.count("not_sent:" + (error or "").split(":")[0])
@@ -1222,11 +1491,49 @@ def check_item(item: dict, tier: str) -> Result:
                     res.count("trees_capped")
                 res.count("trees")
         # -- coverage phase (Template._serialize): its pre-serialisation value is the template's kwargs
-        if item["kind"] in ("param", "body", "mixed") and transport == "requests":
+        if item["kind"] in ("param", "body", "mixed", "multi", "body2") and transport == "requests" and item.get("coverage", True):
             run_coverage(res, item, expect, operation, capture, run_case)
         if capture.lookups == 0 and any(p.location != "formData" for p in expect.params):
             res.oracle_errors.append({"error": "get_parameter_serializer wrapper was never consulted", "item": item})
     return res
+
+
+def _comparable(wire: Wire) -> list:
+    """What two sends of one case have to share: everything but the random multipart boundary."""
+    content_type = wire.header("Content-Type") or ""
+    multipart = content_type.lower().startswith("multipart/")
+    headers = sorted((k.lower(), v) for k, v in wire.headers if k.lower() not in (CASE_ID, "content-length" if multipart else ""))
+    if multipart:
+        headers = [(k, v.split(";")[0] if k == "content-type" else v) for k, v in headers]
+    return [wire.method, wire.origin, wire.raw_path, wire.raw_query, wire.fragment, headers,
+            None if multipart else wire.body.decode("latin-1")]
+
+
+def send_again(res: Result, item: dict, expect: Expect, case: Any, first: Wire | None, transport: str, recorder: Any,
+               headers: dict | None, phase: str, info: dict) -> None:
+    """Round 2 (the same object used twice): the case is asked for its request in the other ways and sent a second time.
+
+    Serialising a case must not change it: the second request is the first one again.
+    """
+    for other_access in (lambda: case.as_transport_kwargs(), lambda: case.as_curl_command()):
+        try:
+            other_access()
+        except Exception:  # noqa: BLE001 - C09's subject; here only its effect on the next send counts
+            res.count("other_access_raised")
+    second, error = send(case, transport, recorder, headers, expect.configured_params, expect.configured_cookies, expect.call_kwargs)
+    res.evaluations += 1
+    if first is None and second is None:
+        return
+    res.count("compared:second_send")
+    sig = {"phase": phase, "transport": transport, "spec": expect.spec, "kind": "second_send_differs", **expect.facts}
+    if first is None or second is None:
+        res.violation({**sig, "cause": "sent_once_only"}, {**info, "error": error, "case": common.summarize_case(case)})
+        return
+    a, b = _comparable(first), _comparable(second)
+    if a != b:
+        parts = ["method", "origin", "path", "query", "fragment", "headers", "body"]
+        res.violation({**sig, "cause": "+".join(name for name, x, y in zip(parts, a, b) if x != y)},
+                      {**info, "first": first.as_json(), "second": second.as_json(), "case": common.summarize_case(case)})
 
 
 def run_coverage(res: Result, item: dict, expect: Expect, operation: Any, capture: Capture, run_case: Any) -> None:
@@ -1284,6 +1591,11 @@ def vacuity(total: Result, tier: str) -> list[str]:
     for key in ("compared:body_json", "compared:body_form", "compared:body_text", "compared:content_type", "coverage_cases"):
         if not c.get(key):
             out.append(f"counter {key} is zero")
+    for key in ("compared:second_send", "compared:path_variable_used_twice", "compared:two_variables_in_one_segment",
+                "round2:case_without_body_of_optional_body", "round2:second_declared_media_type_sent",
+                "round2:media_type_with_parameter_sent", "round2:two_parameters_of_one_location_compared"):
+        if not c.get(key):
+            out.append(f"counter {key} is zero (review round 2 dimension not exercised)")
     if not any(k.startswith("trivial:") for k in c):
         out.append("no ambiguous encoding was met (the exemptions were never exercised)")
     if c.get("not_sent", 0) * 5 > total.evaluations:
